@@ -104,7 +104,27 @@ fn feed_chunked(w: &mut World, mut bytes: Vec<u8>, chunk: u16) {
             ));
         }
     }
-    if chunk >= 0xfff0 {
+    if chunk == 0xfff5 {
+        // 64 KiB reads; the read that completes the packet also carries the first byte of a QoS 0
+        // PUBLISH that addresses no subscription; a quiet moment; then the rest of that PUBLISH
+        let next = rc::encode(&rc::Packet::Publish(rc::Publish { qos: 0, topic: "after/large".into(), payload: vec![9; 5], ..Default::default() }), &rc::Form::canonical());
+        let with_next = w.ctx_running();
+        let n = bytes.len();
+        let mut at = 0;
+        while n - at > 65_536 {
+            w.reader.feed(bytes[at..at + 65_536].to_vec());
+            at += 65_536;
+        }
+        let mut last = bytes[at..].to_vec();
+        if with_next {
+            last.push(next[0]);
+        }
+        w.reader.feed(last);
+        settle(w, &WritePlan::default(), false);
+        if with_next {
+            w.reader.feed(next[1..].to_vec());
+        }
+    } else if chunk >= 0xfff0 {
         // the first read(s) end inside the fixed header / remaining-length field, the rest follows
         // in one piece: [3, rest], [4, rest], [1, 2, rest], [2, rest]
         let cuts: &[usize] = match chunk {
@@ -495,6 +515,17 @@ fn run_case(case: &Case, exp_up: &UserProps, out: &mut Outcome) -> Result<(), Fa
         });
     }
     r?;
+    // everything delivered was well-formed (the packet under test and, where present, the packets
+    // around it): run() has no reason to end
+    if !matches!(case.input, In::Disconnect(_) | In::Connack { .. } | In::Auth { .. }) {
+        settle(&mut w, &plan, false);
+        if let Some(RunRes::Err(e)) = &w.run_result {
+            return fail(
+                &format!("C02/{}/run-ended", packet_of(&case.input).1),
+                format!("only well-formed packets were delivered, yet run() returned {e:?}"),
+            );
+        }
+    }
     let issues = take_accessor_issues();
     if let Some(i) = issues.first() {
         return fail("C02/user-properties-accessors", i.clone());
@@ -674,6 +705,16 @@ impl Property for C02 {
             })
         });
         let mut acks = vec![];
+        // messages of 70 KiB, 1.2 MiB and 3.1 MiB arriving in 64 KiB reads, the last of which
+        // carries the first byte of the next packet
+        for (k, n) in [70usize * 1024, 1_258_291, 3_250_586].into_iter().enumerate() {
+            acks.push(Case {
+                input: In::Publish(rc::Publish { qos: (k % 3) as u8, pid: (k % 3 > 0).then_some(77), topic: "large/message".into(), payload: vec![0x42; n], ..Default::default() }),
+                form: rc::Form::canonical(),
+                chunk: 0xfff5,
+                ambient: 0,
+            });
+        }
         for short in [false, true] {
             for deco in 0u8..4 {
                 let rs = (deco & 1 != 0).then(|| "why".to_string());
